@@ -803,6 +803,11 @@ def _canon_index(interp, base, idx):
 def subscript(interp, base, idx, st, node):
     if base.kind == "maybe":
         base = base.items[0] if base.items else V("unk", base.term, labels=base.labels, orig=base.orig)
+    if isinstance(idx.extra, tuple) and len(idx.extra) == 2 and idx.extra[0] == "ix_" and len(idx.extra[1]) == 2 and base.kind == "arr":
+        # A[np.ix_(r, c)] = A[r][:, c]
+        r_, c_ = idx.extra[1]
+        rows = subscript(interp, base, r_, st, node)
+        return subscript(interp, rows, interp.mk_tuple([_full_slice(), c_]), st, node)
     labels = base.labels | idx.labels
     if base.kind in ("tuple", "list") and base.items is not None:
         if idx.has_const and isinstance(idx.const, int):
